@@ -5,7 +5,9 @@ The `isinstance(arg, str)` branch of parse_time is an if/elif chain
     arg == <zero literal>  -> return 0.0
     else                   -> (needs default unit) parse_time(arg + default_unit, default_unit=None)
 which is emitted as the ordered table `time_units : list (suffix, strip_len, mul, div)` plus the
-zero literal and the list of admissible default units.  Fail-closed.
+zero literal and the list of admissible default units.  The arms for a non-string argument
+(int | float -> parse_time(str(arg) + default_unit, None); else raise) are compared with the shape
+modelled by Model.ConfigModel.parse_time_num.  Fail-closed.
 """
 import ast
 
@@ -82,6 +84,12 @@ def translate(src_text):
         break
     if zero is None or not units:
         raise TranslateError("parse_time: missing zero literal or units")
+    # the arms for a non-string argument (a NUMBER in halmos.toml): int | float go through
+    # str(arg) + default_unit (Model: parse_time_num), anything else raises
+    rest = "\n".join(ast.unparse(s) for s in main.orelse)
+    if rest != ("if isinstance(arg, int | float):\n    if not default_unit:\n        raise ValueError(f'Could not infer time unit from {arg}')\n"
+                "    return parse_time(str(arg) + default_unit, default_unit=None)\nelse:\n    raise ValueError(f'Invalid time argument: {arg}')"):
+        raise TranslateError("parse_time: unexpected arms for a non-string argument")
     L = [
         "(* GENERATED by translate/t_config_time.py from src/halmos/utils.py (parse_time) -- do not edit *)",
         "From Coq Require Import ZArith List Bool.",
